@@ -72,8 +72,8 @@ Section Spec.
     match nd, v with
     | NLeaf f, VLeaf x => leaf f p x
     | NSub _ _ fs, VCfg c => render_cfg (fun pre d => render_fields spec_slot pre d fs) p c
-    | NCfgList _ _ _, VLeaf PNone => Ok PNone
-    | NCfgList _ _ fs, VList l =>
+    | NCfgList _ _ _ _, VLeaf PNone => Ok PNone
+    | NCfgList _ _ fs _, VList l =>
         list_result (render_items (render_cfg (fun pre d => render_fields spec_slot pre d fs)) p l 0)
     | _, _ => Unmodelled
     end.
@@ -83,15 +83,15 @@ End Spec.
 Inductive leaf_in {F : Type} : node F -> F -> Prop :=
 | li_leaf : forall f, leaf_in (NLeaf f) f
 | li_sub : forall dy vs fs k nd f, In (k, nd) fs -> leaf_in nd f -> leaf_in (NSub dy vs fs) f
-| li_list : forall rq vs fs k nd f, In (k, nd) fs -> leaf_in nd f -> leaf_in (NCfgList rq vs fs) f.
+| li_list : forall rq vs fs fsq k nd f, In (k, nd) fs -> leaf_in nd f -> leaf_in (NCfgList rq vs fs fsq) f.
 
 (* same keys in the same order at every configuration level, same list lengths: what "same shape" means
    for two renderings of one schema node (leaf values themselves are not compared) *)
 Inductive shape {F : Type} : node F -> pyval -> pyval -> Prop :=
 | sh_leaf : forall f a b, shape (NLeaf f) a b
 | sh_sub : forall dy vs fs t1 t2, shape_cfg fs t1 t2 -> shape (NSub dy vs fs) t1 t2
-| sh_list_none : forall rq vs fs, shape (NCfgList rq vs fs) PNone PNone
-| sh_list : forall rq vs fs l1 l2, shape_items fs l1 l2 -> shape (NCfgList rq vs fs) (PList 0 l1) (PList 0 l2)
+| sh_list_none : forall rq vs fs fsq, shape (NCfgList rq vs fs fsq) PNone PNone
+| sh_list : forall rq vs fs fsq l1 l2, shape_items fs l1 l2 -> shape (NCfgList rq vs fs fsq) (PList 0 l1) (PList 0 l2)
 with shape_cfg {F : Type} : list (str * node F) -> pyval -> pyval -> Prop :=
 | sc_dict : forall fs d1 d2 extra, shape_fields fs d1 d2 -> shape_cfg fs (PDict 0 (d1 ++ extra)) (PDict 0 (d2 ++ extra))
 with shape_fields {F : Type} : list (str * node F) -> list (pyval * pyval) -> list (pyval * pyval) -> Prop :=
@@ -140,7 +140,7 @@ Fixpoint leaf_at {F : Type} (fs : list (str * node F)) (c : cfg) (ps : list pste
       end
   | PItem k i :: r =>
       match fget F k fs, dget k (c_data c) with
-      | Some (NCfgList _ _ fs'), Some (VList l) =>
+      | Some (NCfgList _ _ fs' _), Some (VList l) =>
           match nth_error l i with Some it => leaf_at fs' it r | None => None end
       | _, _ => None
       end
@@ -210,7 +210,7 @@ Proof.
   destruct (str_eqb k s); [exact H | apply IH; exact H].
 Qed.
 
-Lemma nsize_cfglist : forall F r v (fs : list (str * node F)), nsize F (NCfgList r v fs) = S (fsize F fs).
+Lemma nsize_cfglist : forall F r v (fs : list (str * node F)) fsq, nsize F (NCfgList r v fs fsq) = S (fsize F fs).
 Proof. intros. cbn [nsize]. f_equal. induction fs as [|[k n] fs IH]; [reflexivity|]. cbn [fsize fold_right snd]. f_equal. exact IH. Qed.
 
 (* ---------------------------------------------------------------------------------------------- *)
@@ -226,7 +226,7 @@ Section SpecFacts.
   Proof.
     intros leaf1 leaf2. induction n as [|n IH]; intros nd p v Hn H.
     - destruct nd; cbn [nsize] in Hn; lia.
-    - destruct nd as [f|dy vs fs|rq vs fs].
+    - destruct nd as [f|dy vs fs|rq vs fs fsq].
       + destruct v; try reflexivity. cbn [spec_slot]. apply H. constructor.
       + destruct v as [x|c|l]; try reflexivity. cbn [spec_slot]. rewrite nsize_sub in Hn.
         apply render_cfg_ext. intros q d. apply render_fields_ext. intros k a Hin q' v'.
@@ -286,10 +286,10 @@ Section M.
     rewrite E. reflexivity.
   Qed.
 
-  Lemma tree_slot_unfold_list : forall mask rq vs fs p l,
-    tree_slot mask (NCfgList rq vs fs) p (VList l) = list_result (render_items (render_cfg (fields_of mask fs)) p l 0).
+  Lemma tree_slot_unfold_list : forall mask rq vs fs fsq p l,
+    tree_slot mask (NCfgList rq vs fs fsq) p (VList l) = list_result (render_items (render_cfg (fields_of mask fs)) p l 0).
   Proof.
-    intros mask rq vs fs p l. cbn [Config.tree_slot]. unfold list_result.
+    intros mask rq vs fs fsq p l. cbn [Config.tree_slot]. unfold list_result.
     match goal with |- match ?f l 0 with _ => _ end = _ =>
       assert (E : forall l1 i1, f l1 i1 = render_items (render_cfg (fields_of mask fs)) p l1 i1) end.
     { induction l1 as [|[i0 d df dy'] l1 IH]; intro i; [reflexivity|].
@@ -307,7 +307,7 @@ Section M.
   Proof.
     intros mask. induction n as [|n IH]; intros nd p v Hn.
     - destruct nd; cbn [nsize] in Hn; lia.
-    - destruct nd as [f|dy vs fs|rq vs fs].
+    - destruct nd as [f|dy vs fs|rq vs fs fsq].
       + destruct v as [x|c|l]; [apply tree_slot_leaf | reflexivity | reflexivity].
       + destruct v as [x|c|l]; try reflexivity. rewrite tree_slot_unfold_sub. cbn [spec_slot]. rewrite nsize_sub in Hn.
         apply render_cfg_ext. intros q d. unfold fields_of. apply render_fields_ext. intros k a Hin q' v'.
@@ -470,7 +470,7 @@ Section M.
   Proof.
     intros m. induction n as [|n IH]; intros nd p v t1 t2 Hn H1 H2.
     - destruct nd; cbn [nsize] in Hn; lia.
-    - destruct nd as [f|dy vs fs|rq vs fs].
+    - destruct nd as [f|dy vs fs|rq vs fs fsq].
       + constructor.
       + destruct v as [x|c|l]; try discriminate. rewrite tree_slot_unfold_sub in H1, H2. rewrite nsize_sub in Hn.
         constructor. eapply shape_cfg_of; [| exact H1 | exact H2].
@@ -534,8 +534,8 @@ Section NI.
   | le_sec : forall f x y, lsensitive f = true -> py_falsy x = py_falsy y -> py_strlen x = py_strlen y ->
                            low_eq (NLeaf f) (VLeaf x) (VLeaf y)
   | le_sub : forall dy vs fs c1 c2, low_eq_cfg fs c1 c2 -> low_eq (NSub dy vs fs) (VCfg c1) (VCfg c2)
-  | le_none : forall rq vs fs, low_eq (NCfgList rq vs fs) (VLeaf PNone) (VLeaf PNone)
-  | le_list : forall rq vs fs l1 l2, low_eq_items fs l1 l2 -> low_eq (NCfgList rq vs fs) (VList l1) (VList l2)
+  | le_none : forall rq vs fs fsq, low_eq (NCfgList rq vs fs fsq) (VLeaf PNone) (VLeaf PNone)
+  | le_list : forall rq vs fs fsq l1 l2, low_eq_items fs l1 l2 -> low_eq (NCfgList rq vs fs fsq) (VList l1) (VList l2)
   with low_eq_cfg : list (str * node F) -> cfg -> cfg -> Prop :=
   | lec : forall fs i1 i2 d1 d2 df1 df2 dy1 dy2,
       dyn_items d1 dy1 = dyn_items d2 dy2 ->
@@ -580,7 +580,7 @@ Section NI.
         intros k a Hin. destruct (Hf k a Hin) as [Hnone|[a1 [a2 [H1 [H2 Hl]]]]]; [left; exact Hnone|].
         right. exists a1, a2. repeat split; auto. intro p0. apply IH; [|exact Hl].
         pose proof (fsize_in F _ _ _ Hin). lia. }
-      inversion H as [f x Hs|f x y Hs Hf Hl|dy vs fs c1 c2 Hc|rq vs fs|rq vs fs l1 l2 Hi]; subst.
+      inversion H as [f x Hs|f x y Hs Hf Hl|dy vs fs c1 c2 Hc|rq vs fs fsq|rq vs fs fsq l1 l2 Hi]; subst.
       + reflexivity.
       + rewrite !tree_slot_leaf. cbn [leaf_of]. rewrite Hs. apply mask_leaf_noninterference; assumption.
       + rewrite !tree_slot_unfold_sub. rewrite nsize_sub in Hn. apply Hcfg; [lia | exact Hc].
@@ -611,13 +611,13 @@ Section Examples.
   Let ex_fs : list (str * inode) :=
     [(sa "pw", NLeaf (sleaf true)); (sa "n", NLeaf (ileaf false)); (sa "pin", NLeaf (ileaf true));
      (sa "sub", NSub false [] [(sa "tok", NLeaf (sleaf true)); (sa "host", NLeaf (sleaf false))]);
-     (sa "items", NCfgList false [] item_fs)].
-  Let ex_ops : list (list pstep * cop) :=
-    [([], CSet (sa "pw") (PStr (sa "hunter22")));
-     ([PKey (sa "sub")], CSet (sa "tok") (PStr (sa "abc")));
-     ([PKey (sa "sub")], CSet (sa "host") (PStr (sa "example.org")));
-     ([], CSet (sa "items") (PList 0 [PDict 0 [(PStr (sa "pw"), PStr (sa "s3cret")); (PStr (sa "n"), PInt 1)];
-                                      PDict 0 [(PStr (sa "pw"), PStr (sa ""))]]))].
+     (sa "items", NCfgList false [] item_fs None)].
+  Let ex_ops : list (list pstep * xop leaf) :=
+    [([], XOp (CSet (sa "pw") (PStr (sa "hunter22"))));
+     ([PKey (sa "sub")], XOp (CSet (sa "tok") (PStr (sa "abc"))));
+     ([PKey (sa "sub")], XOp (CSet (sa "host") (PStr (sa "example.org"))));
+     ([], XOp (CSet (sa "items") (PList 0 [PDict 0 [(PStr (sa "pw"), PStr (sa "s3cret")); (PStr (sa "n"), PInt 1)];
+                                           PDict 0 [(PStr (sa "pw"), PStr (sa ""))]])))].
   Let ex_case : cocase := ([], false, [], ex_fs, [], ex_ops).
   Let plain : pyval :=
     PDict 0 [(PStr (sa "pw"), PStr (sa "hunter22")); (PStr (sa "n"), PInt 7); (PStr (sa "pin"), PInt 7);
@@ -698,8 +698,8 @@ Section Examples.
     match nd, v with
     | NLeaf f, VLeaf x => leaf_of leaf lto_basic l_sensitive py_strlen mask f p x
     | NSub _ _ fs, VCfg c => render_cfg (fun pre d => render_fields (slot_f5 mask) pre d fs) p c
-    | NCfgList _ _ _, VLeaf PNone => Ok PNone
-    | NCfgList _ _ fs, VList l =>
+    | NCfgList _ _ _ _, VLeaf PNone => Ok PNone
+    | NCfgList _ _ fs _, VList l =>
         list_result (render_items (render_cfg (fun pre d => render_fields (slot_f5 None) pre d fs)) p l 0)
     | _, _ => Unmodelled
     end.
